@@ -9,7 +9,7 @@ import re
 import subprocess
 import time
 
-REPO = '/repo'
+REPO = os.environ.get('VERIF_REPO', '/repo')   # override: development against a snapshot only
 CACHE = os.environ.get('VERIF_MIR_CACHE', '/verif/.cache/mir')
 
 
